@@ -27,6 +27,7 @@ type retInfo struct {
 	pos     token.Pos
 	blk     *ssa.BasicBlock
 	instr   ssa.Instruction
+	preSt   *State // state before the deferred calls ran (at-return clauses speak about it)
 }
 
 type loopInv struct {
@@ -91,6 +92,7 @@ type FnCtx struct {
 	cells      map[string]SV // captured variables (closure units): name -> pointer to the variable
 	ghostVars  map[string]GhostVar
 	lastGhost  map[string]SV // ghost results of the most recent contracted call
+	preDefer   *State
 	modTargets []modTarget // evaluated modifies clause (unit only)
 	modAll     bool
 }
@@ -204,6 +206,9 @@ func (fc *FnCtx) analyze() {
 				fc.callName[in] = n
 				byName[n] = append(byName[n], ci{in, in.Pos(), k})
 			case *ssa.Return:
+				if b == fn.Recover {
+					continue // the recover block's return is not a source-level return
+				}
 				rets = append(rets, ci{in, in.Pos(), k})
 			}
 		}
